@@ -98,14 +98,14 @@ static void jb_iarr(jb_t *b, const char *name, const int *v, int n)
     for (i = 0; i < n; i++) jb_printf(b, "%s%d", i ? "," : "", v[i]);
     jb_puts(b, "]");
 }
-/* a size_t that may not fit TLC's 32-bit integers: small values as numbers,
- * anything >= 2^30 as a string (so it can never alias a small integer) */
+/* a size_t that may not fit TLC's 32-bit integers: small values as numbers, anything
+ * >= 2^30 as -1 (TLC cannot compare an integer with a string, and -1 can never alias
+ * a legitimate size, count or index) */
 static void jb_size(jb_t *b, size_t v)
 {
     if (v < ((size_t)1 << 30)) jb_printf(b, "%zu", v);
-    else jb_printf(b, "\"0x%zx\"", v);
+    else jb_puts(b, "-1");
 }
-
 /* event list of the operation being applied (callbacks, allocator calls, hash
  * calls ...), in order; the engine appends it to the record as "ev":[...] even
  * when the operation aborted half way */
